@@ -169,10 +169,12 @@ def num_den_fact(x):
 
 def num_den(x, path) -> Tuple[Any, Any]:
     """numerator / denominator of a rational: functions of the value with
-    n/d == x, d > 0 (lowest terms is not needed by any caller's contract)."""
+    n/d == x, d > 0, and d == 1 exactly for integral values (lowest terms is
+    not needed beyond that by any caller's contract)."""
     n, d = numer(x), denom(x)
     path.assume(d > 0)
     path.assume(z3.ToReal(n) == x * z3.ToReal(d))
+    path.assume((d == 1) == is_int(x))
     return n, d
 
 
